@@ -25,8 +25,8 @@ import Mathlib.Data.List.Range
   * `write_correct_nd`           n-D views of EVERY rank (odometer; equal-order binders and scalar right-hand sides; vector and
                                  scalar branch): via `steps_box` (the odometer visits the box exactly once in row-major
                                  order, induction on the rank), `odo_lanes`, `pos_nodup` (mixed-radix injectivity).
-  NOT proved here (tied by the correspondence only): for the binders of UNEQUAL order (rhs read through the running
-  `counter`, kind `f`) that `counter` equals the flat index of the visited multi-index.
+  * `write_correct_nd_flat`      the binders of unequal order (rhs read through the running `counter`): `odo_flat_eq` shows the
+                                 counter is the flat index of the visited multi-index, so it is the same program.
 -/
 namespace Fastor.C05
 open Fastor Fastor.ViewWrite
@@ -218,9 +218,6 @@ def InBounds : List Nat → List Ax → Prop
   | [], [] => True
   | _, _ => False
 
-theorem forRange_range (e : Nat) : forRange 0 e 1 = List.range e := by
-  rw [forRange_one]; simp
-
 theorem box_ones_cons (e : Nat) (es : List Nat) :
     box (((e :: es).map fun e => (e, 1))) = (List.range e).flatMap fun x => (box (es.map fun e => (e, 1))).map (x :: ·) := by
   simp [box, forRange_range]
@@ -317,6 +314,18 @@ theorem write_correct_nd (V : Nat) (hV : 0 < V) (dims : List Nat) (axs : List Ax
     simp only [List.map_map, List.mem_map, Function.comp] at hmem
     obtain ⟨j, hj, hjp⟩ := hmem
     exact hp j (by simpa [exts, List.map_map] using hj) hjp.symm
+
+/-- **write_correct, n-D views, binders of unequal order** (the right-hand side is read through the running `counter`):
+    the same statement, element `j` taking rhs element number `flat j` -/
+theorem write_correct_nd_flat (V : Nat) (hV : 0 < V) (dims : List Nat) (axs : List Ax) (hne : axs ≠ [])
+    (hin : InBounds dims axs) (hlen : dims.length = axs.length) (hext : ∀ a ∈ axs, 0 < a.ext)
+    (op : WOp) (r : Nat → α) (m : Nat → α) :
+    let exts := axs.map (·.ext)
+    let m' := exec op (fun _ => r) (odoIters V dims axs true V) m
+    (∀ j ∈ box (exts.map fun e => (e, 1)), m' (posOf dims axs j) = op.ap (m (posOf dims axs j)) (r (flat exts j))) ∧
+    (∀ p, (∀ j ∈ box (exts.map fun e => (e, 1)), p ≠ posOf dims axs j) → m' p = m p) := by
+  rw [odo_flat_eq V hV dims axs hne hext]
+  exact write_correct_nd V hV dims axs hne hin hlen hext V (Or.inl rfl) op r m
 
 /-- non-vacuity: a 3-D slice `A(seq(0,2), seq(1,4,2), seq(2,6))` of a 2x4x6 tensor -/
 example : InBounds [2, 4, 6] [⟨0, 1, 2⟩, ⟨1, 2, 2⟩, ⟨2, 1, 4⟩] := by
